@@ -91,7 +91,7 @@ where
 
 // Verification hook: the SimpleDataReader inside (its own take/stream forms are part of the
 // public API of a SimpleDataReader; there is no public constructor for the with_key one).
-#[cfg(rustdds_verif)]
+#[cfg(all(rustdds_verif, any(not(rustdds_verif_only), rustdds_verif_c08, rustdds_verif_c09)))]
 impl<D: 'static, DA> DataReader<D, DA>
 where
   D: Keyed,
